@@ -36,6 +36,7 @@ type WorldCfg struct {
 	CapBytes   int           `json:"cap_bytes,omitempty"`
 	Latency    time.Duration `json:"latency,omitempty"`
 	Gated      bool          `json:"gated,omitempty"`
+	ByRef      bool          `json:"by_ref,omitempty"` // carrier encodes frames at delivery, not inside Send
 }
 
 func (c WorldCfg) String() string {
@@ -48,6 +49,9 @@ func (c WorldCfg) String() string {
 	}
 	if c.ServerNoFC {
 		s += ",snofc"
+	}
+	if c.ByRef {
+		s += ",byref"
 	}
 	if c.StripReq {
 		s += ",stripreq"
@@ -288,6 +292,7 @@ func NewWorld(t *testing.T, cfg WorldCfg) *World {
 		Latency:                cfg.Latency,
 		StripNegotiateRequest:  cfg.StripReq,
 		StripNegotiateResponse: cfg.StripResp,
+		ByRef:                  cfg.ByRef,
 		Decorate: func(ctx context.Context, l *Link) context.Context {
 			return context.WithValue(ctx, ctxValKey{}, fmt.Sprintf("ctxval-link-%d", l.ID))
 		},
